@@ -85,6 +85,17 @@ func (rt Rate) Recalculate(minimum time.Duration) (Rate, error) {
 		return recalculated, nil
 	}
 
+	// if the interval is equal to the non-zero minimum, then the quantity converted
+	// below would be rounded down to zero when the division above had a remainder
+	if interval == minimum && interval != 0 {
+		recalculated := Rate{
+			Interval: interval,
+			Quantity: 1,
+		}
+
+		return recalculated, nil
+	}
+
 	if minimum == 0 {
 		return Rate{}, ErrConvertedIntervalZero
 	}
